@@ -135,8 +135,14 @@ def do_run(ids, in_repo=False, seeds=("",)):
         if not in_repo:
             sh("git -C /repo worktree remove --force %s" % tree)
             shutil.rmtree(tree, ignore_errors=True)
-        json.dump(results, open(rpath, "w"), indent=1, sort_keys=True)
-    shutil.rmtree("/tmp/seeded-replays", ignore_errors=True)
+        # several evaluations may run side by side: merge this outcome into the file under a lock
+        import fcntl
+        with open(rpath + ".lock", "w") as lk:
+            fcntl.flock(lk, fcntl.LOCK_EX)
+            cur = json.load(open(rpath)) if os.path.exists(rpath) else {}
+            if sid in results:
+                cur[sid] = results[sid]
+            json.dump(cur, open(rpath, "w"), indent=1, sort_keys=True)
     return 0
 
 
